@@ -296,7 +296,7 @@ Qed.
 Lemma scale_polynomial_window : forall cs o l v,
   scale_polynomial cs (window o l v) = rmap (window o l) (scale_polynomial cs v).
 Proof.
-  intros. unfold scale_polynomial. destruct cs as [|c cs].
+  intros. unfold scale_polynomial. destruct (rev cs) as [|c rest].
   - cbn. now rewrite vlen_window, win_repeat.
   - cbn [rmap window]. now rewrite astype_f64_window, win_map.
 Qed.
@@ -322,7 +322,7 @@ Proof. now intros []; cbn; rewrite ?map_length. Qed.
 
 Lemma scale_polynomial_vlen : forall cs v w, scale_polynomial cs v = Ok w -> vlen w = vlen v.
 Proof.
-  intros cs v w H. unfold scale_polynomial in H. destruct cs; injection H as <-; cbn.
+  intros cs v w H. unfold scale_polynomial in H. destruct (rev cs); injection H as <-; cbn.
   - apply repeat_length.
   - now rewrite map_length, astype_f64_length.
 Qed.
